@@ -583,7 +583,7 @@ func full(a *hx.Args, in *input, res *hx.Result) {
 				typesSeen[p.alt.T+"/"+p.alt.Branch] = true
 			}
 			res.Eval(ek)
-			d := hx.M{"part": "full", "key": kd, "verdict": r.Verdict, "what": r.What, "path": pathString(p.job.Path), "expect": p.expect}
+			d := hx.M{"part": "full", "key": kd, "verdict": r.Verdict, "change": r.What, "path": pathString(p.job.Path), "expect": p.expect}
 			if p.alt != nil {
 				d["case"] = p.alt
 			}
@@ -606,7 +606,7 @@ func full(a *hx.Args, in *input, res *hx.Result) {
 				res.Count("dontcare:" + p.alt.T + ":" + p.alt.K + ":" + r.Verdict)
 			}
 			if !p.cheap && p.alt != nil {
-				res.Sample(hx.M{"alteration": p.desc, "what": r.What, "expected": p.expect, "verdict": r.Verdict, "ms": r.Ms})
+				res.Sample(hx.M{"alteration": p.desc, "change": r.What, "expected": p.expect, "verdict": r.Verdict, "ms": r.Ms})
 			}
 		}
 		res.Count("keys")
